@@ -29,6 +29,21 @@ func init() {
 	RegisterInternalMessage[*UnwatchMessage]("UnwatchMessage", onUnwatchMessageReader, onUnwatchMessageWriter)
 }
 
+// RefFactory 根据地址与路径重建 ActorRef 的工厂函数，由 actor 包在初始化时注入。
+// 携带 ActorRef 字段的内部消息（如 OnKill、OnKilled）在线上仅传输地址与路径，反序列化时通过该工厂还原为可用的引用。
+var RefFactory func(address, path string) (any, error)
+
+// BuildRef 通过 RefFactory 重建 ActorRef；地址与路径均为空时表示空引用，返回 nil
+func BuildRef(address, path string) (any, error) {
+	if address == "" && path == "" {
+		return nil, nil
+	}
+	if RefFactory == nil {
+		return nil, fmt.Errorf("actor ref factory is not registered")
+	}
+	return RefFactory(address, path)
+}
+
 type MessageDesc struct {
 	typeOf      reflect.Type
 	messageName string
